@@ -16,7 +16,7 @@ ASSUMPTIONS = ['the set of construct openers is taken from the documentation of 
 CHUNK = 6
 E = '\x1b'
 
-OPENERS = ('commit ', 'diff ', '--- ', '+++ ', '@@', 'Submodule ', 'Binary files ', 'Only in ', 'old mode ', 'new mode ', '{"type":"', '{"data":',
+OPENERS = ('commit ', 'diff ', '--- ', '+++ ', '@@', 'Submodule ', 'Binary files ', 'Only in ', '{"type":"', '{"data":',
            'rename from ', 'rename to ', 'copy from ', 'copy to ', 'deleted file mode ', 'new file mode ', '<<<<<<< ',
            '=======', '>>>>>>> ', '||||||| ', '\\ ')
 # the shape of a `git blame` line as documented: hash [file] (author date time zone line) code
@@ -55,6 +55,8 @@ PROSE = ['The quick brown fox', 'warning: unused variable `x`', '  --> src/main.
          'tab\tseparated\tvalues', '   leading and trailing   ', '日本語のテキスト', 'emoji 😀 text', 'naïve café', '|/ graph', '* | 1234567 msg',
          '- dash start', '+ plus start', '-not a diff', '+not a diff', ' space start', '#!/bin/sh', '--', '++', '---', '+++', '@ at',
          '=====', '<<<<<<<', '>>>>>>>', 'commitment', 'different', 'Binaryfiles', '}{',
+         # lines that only mean something after a 'diff' line
+         'old mode 100644', 'new mode 100755 was set by the installer', 'old mode of operation',
          # JSON of other programs (rg --json records start with {"type":" or {"data":)
          '{"level":"info","type":"end","msg":"job done"}', '{"a":1}', '{ not json', '{"msg":"x","type":"summary"}', '{"level":"warn","type":"begin"}', '{}',
          '\x1b[35msrc/x.rs\x1b[m\x1b[36m:\x1b[m\x1b[32m12\x1b[m\x1b[36m:\x1b[m coloured like a grep hit, but the caller is not grep',
